@@ -23,7 +23,7 @@ SHARDS = {"quick": 8, "thorough": 16}
 DECIDING = ["blur_is_centred_convolution", "impulse_response", "mass_scaled", "fft_restore_normal_equations", "matrix_restore_equals_fft",
             "dense_builder_is_operator", "csr_builder_is_operator", "restore_linear", "channels_independent", "lambda0_inverts",
             "psf_generator_wellformed", "input_unchanged"]
-MUST_REACH = ["history:same_taps_other_shape", "history:same_kernel_other_image", "history:kernel_updated_in_place", "kernel:smaller_than_image", "kernel:same_size_as_image", "kernel:even", "kernel:asymmetric", "kernel:1x1", "image:non_square",
+MUST_REACH = ["history:same_taps_other_shape", "history:same_kernel_other_image", "history:kernel_updated_in_place", "kernel:smaller_than_image", "kernel:same_size_as_image", "kernel:even", "kernel:asymmetric", "kernel:1x1", "image:non_square", "image:channel_amplitudes_vary",
               "lambda:zero"]
 
 C = 1e3
@@ -112,6 +112,14 @@ def _image(rng, H, W, idx):
     return X
 
 
+_AMPS = [(1, 1, 1, 1), (1, 1, 1, 1), (1e-10, 1, 1, 1), (1, 1e-12, 1e6, 1e-9), (1e-10, 1e-10, 1e-10, 1e-10), (3e-9, 1, 1e-3, 1), (1e8, 1e8, 1e8, 1e8),
+         (1, 1, 1, 1), (1e-15, 1e-7, 1, 1e-20)]
+
+
+def _chmax(Z):
+    return np.maximum(np.abs(Z).reshape(-1, 4).max(axis=0), 1e-300)
+
+
 def _img(spec, ctx, R):
     Q = R.qslst
     H, W = spec["H"], spec["W"]
@@ -119,6 +127,12 @@ def _img(spec, ctx, R):
     psf, kind = _kernel(rng, Q, H, W, spec["idx"])
     kH, kW = psf.shape
     X = _image(rng, H, W, spec["idx"] // 8)
+    # per-channel amplitudes: the four channels are convolved independently, so every clause is judged per channel relative to
+    # that channel's own size (a channel of amplitude 1e-10 next to one of amplitude 1 must still be blurred / restored)
+    amp = np.array(_AMPS[(spec["idx"] // 7) % len(_AMPS)], dtype=float)
+    X = X * amp
+    if not np.all(amp == 1.0):
+        ctx.hit("image:channel_amplitudes_vary")
     X = gen.vary(X, spec["idx"] // 3)
     psf = gen.vary(psf, spec["idx"] // 5)
     N = H * W
@@ -154,9 +168,11 @@ def _img(spec, ctx, R):
         ctx.check("unexpected_exception", False, site="apply_blur_fft", tags=tags, detail={**det, "exception": repr(e)})
         return
     ref = np.stack([conv.conv2_periodic_centred(X[..., c], psf) for c in range(4)], axis=-1)
-    bb = C * EPS * logf * p1 * max(xinf, 1e-300) + 1e-300
+    xch = _chmax(X)
+    bb = C * EPS * logf * p1
     okB = B.shape == X.shape and np.all(np.isfinite(B))
-    ctx.check("blur_is_centred_convolution", float(np.abs(B - ref).max()) if okB else float("inf"), bb, site="apply_blur_fft", tags=tags, detail=det)
+    ctx.check("blur_is_centred_convolution", float((np.abs(B - ref) / xch).max()) if okB else float("inf"), bb, site="apply_blur_fft", tags=tags,
+              detail={**det, "channel_amplitudes": list(amp), "judged": "per channel, relative to the channel's largest entry"})
     E = np.zeros((H, W, 4))
     i0, j0 = int(rng.integers(0, H)), int(rng.integers(0, W))
     E[i0, j0, :] = [1.0, -2.0, 0.5, 3.0]
@@ -167,8 +183,8 @@ def _img(spec, ctx, R):
             centred[(i0 + u - kH // 2) % H, (j0 + v - kW // 2) % W] += psf[u, v]
     ctx.check("impulse_response", float(np.abs(BE - centred[..., None] * np.array([1.0, -2.0, 0.5, 3.0])).max()),
               C * EPS * logf * p1 * 3.0 + 1e-300, site="apply_blur_fft", tags=tags, detail={**det, "impulse_at": [i0, j0]})
-    ctx.check("mass_scaled", float(np.abs(B.sum(axis=(0, 1)) - psf.sum() * X.sum(axis=(0, 1))).max()),
-              C * EPS * N * p1 * max(xinf, 1e-300) + 1e-300, site="apply_blur_fft", tags=tags, detail=det)
+    ctx.check("mass_scaled", float((np.abs(B.sum(axis=(0, 1)) - psf.sum() * X.sum(axis=(0, 1))) / xch).max()),
+              C * EPS * N * p1, site="apply_blur_fft", tags=tags, detail=det)
     # ---- operator matrices ---------------------------------------------------------------------
     A = conv.bccb_matrix(psf, H, W)
     if _APP is not None and N <= 81:
@@ -186,7 +202,7 @@ def _img(spec, ctx, R):
         except Exception as e:
             ctx.check("unexpected_exception", False, site="_build_bccb_csr", tags=tags, detail={**det, "exception": repr(e)})
     # ---- restoration ---------------------------------------------------------------------------
-    Bn = ref + 0.01 * rng.standard_normal(ref.shape)            # observed image (blurred by the ORACLE operator, plus noise)
+    Bn = ref + 0.01 * amp * rng.standard_normal(ref.shape)      # observed image (blurred by the ORACLE operator, plus noise)
     sv = np.linalg.svd(A, compute_uv=False)
     a2 = float(sv[0] ** 2)
     lams = [lam]
@@ -204,33 +220,34 @@ def _img(spec, ctx, R):
         okX = Xr.shape == Bn.shape and np.all(np.isfinite(Xr))
         res = 0.0
         if okX:
+            xrch = np.maximum(_chmax(Xr), _chmax(Bn) / max(np.sqrt(a2) + lm, 1e-300) * 1e-3)
             for c in range(4):
-                res = max(res, float(np.abs(T @ Xr[..., c].reshape(-1) - A.T @ Bn[..., c].reshape(-1)).max()))
-        nb = C * EPS * N * logf * ((a2 + lm) * max(float(np.abs(Xr).max()), 1e-300) * kapT if okX else 1.0) + 1e-300
+                res = max(res, float(np.abs(T @ Xr[..., c].reshape(-1) - A.T @ Bn[..., c].reshape(-1)).max()) / xrch[c])
+        nb = C * EPS * N * logf * ((a2 + lm) * kapT if okX else 1.0)
         ctx.check("fft_restore_normal_equations", res if okX else float("inf"), nb, site="qslst_restore_fft", tags=tags, detail={**det, "lambda": lm, "kappa_T": kapT})
         if N <= 81 and okX:
             try:
                 Xm = Q.qslst_restore_matrix(Bn, A, lm)
-                ctx.check("matrix_restore_equals_fft", float(np.abs(Xm - Xr).max()),
-                          C * EPS * N * logf * kapT * max(float(np.abs(Xr).max()), 1e-300) + 1e-300, site="qslst_restore_matrix", tags=tags,
+                ctx.check("matrix_restore_equals_fft", float((np.abs(Xm - Xr) / xrch).max()),
+                          C * EPS * N * logf * kapT, site="qslst_restore_matrix", tags=tags,
                           detail={**det, "lambda": lm, "kappa_T": kapT})
             except Exception as e:
                 ctx.check("unexpected_exception", False, site="qslst_restore_matrix", tags=tags, detail={**det, "exception": repr(e)})
         if lm == 0.0 and okX:
             Xi = Q.qslst_restore_fft(ref, psf, 0.0)
-            ctx.check("lambda0_inverts", float(np.abs(Xi - X).max()), C * EPS * N * logf * kapT * max(xinf, 1e-300) + 1e-300,
+            ctx.check("lambda0_inverts", float((np.abs(Xi - X) / xch).max()), C * EPS * N * logf * kapT,
                       site="qslst_restore_fft", tags=tags, detail={**det, "kappa_T": kapT})
     # linearity and channel independence (lambda = lam)
-    B2 = rng.standard_normal(Bn.shape)
+    B2 = amp * rng.standard_normal(Bn.shape)
     al, be = 0.75, -1.5
     X1, X2 = Q.qslst_restore_fft(Bn, psf, lam), Q.qslst_restore_fft(B2, psf, lam)
     X12 = Q.qslst_restore_fft(al * Bn + be * B2, psf, lam)
-    scale = max(float(np.abs(X1).max()), float(np.abs(X2).max()), 1e-300)
-    ctx.check("restore_linear", float(np.abs(X12 - (al * X1 + be * X2)).max()), C * EPS * logf * 4 * scale + 1e-300, site="qslst_restore_fft",
+    scale = np.maximum(_chmax(X1), _chmax(X2))
+    ctx.check("restore_linear", float((np.abs(X12 - (al * X1 + be * X2)) / scale).max()), C * EPS * logf * 4, site="qslst_restore_fft",
               tags=tags, detail=det)
     ch = int(rng.integers(0, 4))
     B3 = Bn.copy()
-    B3[..., ch] = rng.standard_normal((H, W))
+    B3[..., ch] = amp[ch] * rng.standard_normal((H, W))
     X3 = Q.qslst_restore_fft(B3, psf, lam)
     others = [c for c in range(4) if c != ch]
     ctx.check("channels_independent", bool(np.array_equal(X3[..., others], X1[..., others])), site="qslst_restore_fft", tags=tags, detail={**det, "channel": ch})
